@@ -250,7 +250,7 @@ def _check_split(ift_, H, X, keys, C, P, rec, classes, comm=None):
 
     # ---- a few minimiser steps
     if V:
-        mini = ift.NewtonCG(ift.GradientNormController(iteration_limit=rec["steps"]), max_cg_iterations=8)
+        mini = ift.NewtonCG(ift.GradientNormController(iteration_limit=rec["steps"]), max_cg_iterations=3)
         try:
             kl3, _ = mini(kl)
         except Exception as e:  # noqa: BLE001   (minimiser robustness is C16; see ASSUMPTIONS)
@@ -471,18 +471,519 @@ def classic_recipes(draw, tier, distributed=False):
     expr = ["ham", draw(st.sampled_from([2, 5, 20])), draw(st.sampled_from(["float", "dict"])), lh]
     rec = {"types": types, "mtypes": mtypes, "keys": keys, "expr": expr,
            "x": c04._values(draw, ctx, keys),
-           "n_samples": draw(st.integers(1, 3)), "mirror": draw(st.booleans()),
+           "mirror": draw(st.booleans()),
            "seed": draw(st.integers(0, 2**31 - 1)),
            "geo": draw(st.sampled_from([0, 0, 0, 1, 2])),
            "steps": draw(st.integers(1, 2)),
            "delta": {k: draw(st.lists(SMALL, min_size=1, max_size=4)) for k in names},
            "probe": {k: draw(st.lists(S.dyadic(-2, 2, 4), min_size=1, max_size=4)) for k in names}}
+    # (3 keys = 56 splits per case: at most 3 samples in total to keep the case affordable)
+    rec["n_samples"] = 1 if (len(names) == 3 and rec["mirror"]) else draw(st.integers(1, 3))
     if distributed:
         rec["ntask"] = draw(st.integers(2, 4))
         rec["sched"] = draw(st.lists(st.integers(0, 3), max_size=8))
         states = [draw(st.integers(0, 3)) for _ in names]
         rec["split"] = [[k for k, s in zip(names, states) if s & 1], [k for k, s in zip(names, states) if s & 2]]
     return rec
+
+
+
+# ------------------------------------------------------------------------------------------
+# JAX: model zoo with a closed-form NumPy reference
+# ------------------------------------------------------------------------------------------
+JSIZE = {"a": 3, "b": 3, "c": 2}
+JM = 3          # data-space size of every likelihood term
+
+
+def _phi_np(name, u):
+    """(value, derivative) of the pointwise nonlinearity"""
+    if name == "id":
+        return u, np.ones_like(u)
+    if name == "tanh":
+        t = np.tanh(u)
+        return t, 1 - t * t
+    if name == "sq":
+        return u + 0.25 * u * u, 1 + 0.5 * u
+    if name == "posexp":
+        t = np.tanh(u)
+        v = np.exp(0.5 * t)
+        return v, 0.5 * (1 - t * t) * v
+    raise ValueError(name)
+
+
+def _phi_jnp(name, u):
+    import jax.numpy as jnp
+    if name == "id":
+        return u
+    if name == "tanh":
+        return jnp.tanh(u)
+    if name == "sq":
+        return u + 0.25 * u * u
+    if name == "posexp":
+        return jnp.exp(0.5 * jnp.tanh(u))
+    raise ValueError(name)
+
+
+def _fwd_np(f, keys, x):
+    """x: flat position (keys in sorted order). Returns (value[m], jacobian[m, D])"""
+    M = np.asarray(f["M"], dtype=FLT)
+    u = M @ x + np.asarray(f["c"], dtype=FLT)
+    v, dv = _phi_np(f["phi"], u)
+    J = dv[:, None] * M
+    if f.get("mix"):
+        ofs = {}
+        o = 0
+        for k in keys:
+            ofs[k] = o
+            o += JSIZE[k]
+        a = x[ofs["a"]:ofs["a"] + 3]
+        b = x[ofs["b"]:ofs["b"] + 3]
+        e = np.exp(0.25 * np.tanh(b))
+        v = v + a * e
+        J = J.copy()
+        J[np.arange(3), ofs["a"] + np.arange(3)] += e
+        J[np.arange(3), ofs["b"] + np.arange(3)] += a * e * 0.25 * (1 - np.tanh(b) ** 2)
+    return v, J
+
+
+def _fwd_jnp(f, keys):
+    import jax.numpy as jnp
+    M = jnp.asarray(np.asarray(f["M"], dtype=FLT))
+    c = jnp.asarray(np.asarray(f["c"], dtype=FLT))
+    phi, mix = f["phi"], bool(f.get("mix"))
+
+    def fwd(x):
+        xc = jnp.concatenate([x[k] for k in keys])
+        v = _phi_jnp(phi, M @ xc + c)
+        if mix:
+            v = v + x["a"] * jnp.exp(0.25 * jnp.tanh(x["b"]))
+        return v
+    return fwd
+
+
+def _term_np(term, keys, x):
+    """closed form (energy, gradient[D], Fisher metric[D, D]) of one likelihood term at flat x"""
+    kind = term["kind"]
+    d = np.asarray(term["data"], dtype=FLT)
+    f, J = _fwd_np(term["f"], keys, x)
+    if kind == "gauss":
+        w = np.asarray(term["w"], dtype=FLT)
+        r = d - f
+        return 0.5 * np.sum(w * r * r), -J.T @ (w * r), J.T @ (w[:, None] * J)
+    if kind == "studentt":
+        w = np.asarray(term["w"], dtype=FLT)
+        dof = float(term["dof"])
+        r = d - f
+        q = w * r * r / dof
+        e = np.sum(0.5 * (dof + 1) * np.log1p(q))
+        g = -J.T @ ((dof + 1) * w * r / dof / (1 + q))
+        return e, g, J.T @ ((w * (dof + 1) / (dof + 3))[:, None] * J)
+    if kind == "poisson":
+        return np.sum(f) - np.sum(d * np.log(f)), J.T @ (1 - d / f), J.T @ ((1 / f)[:, None] * J)
+    if kind == "vcg":
+        s, Js = _fwd_np(term["g"], keys, x)
+        r = d - f
+        e = 0.5 * np.sum((r * s) ** 2) - np.sum(np.log(s))
+        g = -J.T @ (r * s * s) + Js.T @ (r * r * s - 1 / s)
+        return e, g, J.T @ ((s * s)[:, None] * J) + Js.T @ ((2 / (s * s))[:, None] * Js)
+    raise ValueError(kind)
+
+
+def _ham_np(model, x):
+    keys = model["keys"]
+    e, g, m = 0.5 * float(x @ x), x.copy(), np.eye(x.size)
+    for t in model["terms"]:
+        te, tg, tm = _term_np(t, keys, x)
+        e, g, m = e + te, g + tg, m + tm
+    return e, g, m
+
+
+def _jax_likelihood(model):
+    import jax.numpy as jnp
+    import nifty.re as jft
+    keys = model["keys"]
+    lhs = []
+    for t in model["terms"]:
+        kind = t["kind"]
+        d = jnp.asarray(np.asarray(t["data"], dtype=FLT))
+        fwd = _fwd_jnp(t["f"], keys)
+        if kind in ("gauss", "studentt"):
+            w = jnp.asarray(np.asarray(t["w"], dtype=FLT))
+            sw = jnp.sqrt(w)
+            kw = dict(noise_cov_inv=lambda x, w=w: w * x, noise_std_inv=lambda x, sw=sw: sw * x)
+            lh = jft.Gaussian(d, **kw) if kind == "gauss" else jft.StudentT(d, float(t["dof"]), **kw)
+            lhs.append(lh.amend(fwd))
+        elif kind == "poisson":
+            lhs.append(jft.Poissonian(jnp.asarray(np.asarray(t["data"], dtype=np.int64))).amend(fwd))
+        elif kind == "vcg":
+            g = _fwd_jnp(t["g"], keys)
+            lhs.append(jft.VariableCovarianceGaussian(d).amend(lambda x, fwd=fwd, g=g: (fwd(x), g(x))))
+        else:
+            raise ValueError(kind)
+    lh = lhs[0]
+    for other in lhs[1:]:
+        lh = lh + other
+    return lh
+
+
+def _vec(jft, keys, flat):
+    import jax.numpy as jnp
+    out, o = {}, 0
+    for k in keys:
+        out[k] = jnp.asarray(np.array(flat[o:o + JSIZE[k]], dtype=FLT))
+        o += JSIZE[k]
+    return jft.Vector(out)
+
+
+def _flatv(keys, v):
+    """Vector/dict with the model's keys -> flat numpy vector (broadcast point-estimate leaves to full size)"""
+    tree = v.tree if hasattr(v, "tree") else v
+    return np.concatenate([np.broadcast_to(np.asarray(tree[k], dtype=FLT).reshape(-1), (JSIZE[k],))
+                           if np.asarray(tree[k]).size == 1 and JSIZE[k] != 1
+                           else np.asarray(tree[k], dtype=FLT).reshape(-1) for k in keys])
+
+
+def _cols_j(keys, sel):
+    idx, o = [], 0
+    for k in keys:
+        if k in sel:
+            idx.extend(range(o, o + JSIZE[k]))
+        o += JSIZE[k]
+    return np.array(idx, dtype=int)
+
+
+def _leafbytes(v, keys):
+    tree = v.tree if hasattr(v, "tree") else v
+    return b"|".join(k.encode() + b":" + np.ascontiguousarray(np.asarray(tree[k])).tobytes() for k in keys)
+
+
+def _eager_hamiltonian(lh, jft):
+    """sample-by-sample NIFTy Hamiltonian: likelihood energy + 0.5 x^2, its gradient, and metric + identity"""
+    import jax
+
+    def ham(x):
+        return lh(x) + 0.5 * jft.vdot(x, x)
+    vg = jax.value_and_grad(ham)
+
+    def met(x, t):
+        return lh.metric(x, t) + t
+    return vg, met
+
+
+def check_jax(rec):
+    import jax
+    assert jax.config.jax_enable_x64, "jax sub-check needs float64 (worker must be started with jax=True)"
+    import importlib
+    import jax.numpy as jnp
+    from jax import random
+    import nifty.re as jft
+    from nifty.re.evi import Samples
+    okl = importlib.import_module("nifty.re.optimize_kl")
+    lvl = jft.logger.level
+    jft.logger.setLevel(logging.CRITICAL)
+    try:
+        with warnings.catch_warnings():
+            warnings.simplefilter("ignore")
+            return _check_jax(rec, jax, jnp, random, jft, Samples, okl)
+    finally:
+        jft.logger.setLevel(lvl)
+
+
+def _check_jax(rec, jax, jnp, random, jft, Samples, okl):
+    model = rec["model"]
+    keys = model["keys"]
+    D = sum(JSIZE[k] for k in keys)
+    classes = {f"nkeys_{len(keys)}", "jit" if rec["jit"] else "nojit", "map_" + rec["map"]}
+    classes |= {"lh_" + t["kind"] for t in model["terms"]}
+    classes.add(f"terms_{len(model['terms'])}")
+    lh = _jax_likelihood(model)
+    x1 = np.concatenate([np.asarray(rec["pos"][k], dtype=FLT) for k in keys])
+    x2 = np.concatenate([np.asarray(rec["pos2"][k], dtype=FLT) for k in keys])
+    pos, pos2 = _vec(jft, keys, x1), _vec(jft, keys, x2)
+    pe = [k for k in keys if k in rec["pe"]]
+    const = [k for k in keys if k in rec["const"]]
+    opt = jft.OptimizeVI(lh, 1, jit=rec["jit"], kl_map=rec["map"], linear_minimizer_jit=False,
+                         nonlinear_minimizer_jit=False)
+
+    # ---- samples
+    spec = rec["samples"]
+    mk = dict(name=None, xtol=1e-6, maxiter=2, cg_kwargs=dict(name=None, maxiter=10))
+    if spec[0] == "draw":
+        _, mode, n, seed = spec
+        smp, _ = opt.draw_samples(Samples(pos=pos, samples=None, keys=None), key=random.PRNGKey(seed),
+                                  sample_mode=mode, n_samples=n, point_estimates=tuple(pe),
+                                  draw_linear_kwargs=dict(cg_name=None, cg_kwargs=dict(absdelta=1e-10, maxiter=30)),
+                                  nonlinearly_update_kwargs=dict(minimize_kwargs=mk))
+        require(len(smp) == 2 * n, "n_samples", f"{len(smp)} samples for n_samples={n} (mirrored)")
+        classes |= {"drawn_mirrored", "mode_" + mode, f"n_samples_{n}"}
+        if pe:
+            classes.add("point_estimates")
+    elif spec[0] == "given":
+        rows = spec[1]
+        res = {}
+        for k in keys:
+            arr = np.array([r[k] for r in rows], dtype=FLT).reshape(len(rows), JSIZE[k])
+            if k in pe:
+                arr = np.zeros((len(rows), 1))       # the shape the sampler uses for point-estimated leaves
+            res[k] = jnp.asarray(arr)
+        smp = Samples(pos=pos, samples=jft.Vector(res), keys=None)
+        require(len(smp) == len(rows), "n_samples", f"{len(smp)} vs {len(rows)}")
+        classes |= {"given_unmirrored", f"n_samples_{len(rows)}"}
+        if pe:
+            classes.add("point_estimates")
+    else:
+        smp = Samples(pos=pos, samples=None, keys=None)
+        classes.add("no_samples_MAP")
+    nsmp = len(smp)
+    require(_leafbytes(smp.pos, keys) == _leafbytes(pos, keys), "samples_pos", "expansion point of the samples")
+
+    # residuals through the public interface: sample_i - expansion point
+    resid = [_flatv(keys, smp[i]) - x1 for i in range(nsmp)]
+    if nsmp and any(np.any(r != 0) for r in resid):
+        classes.add("residuals_nonzero")
+    for k in pe:
+        c = _cols_j(keys, {k})
+        if spec[0] == "draw":
+            for r in resid:
+                require(not np.any(r[c] != 0), "point_estimate_has_residual", f"key {k}")
+
+    vg_e, met_e = _eager_hamiltonian(lh, jft)
+
+    def reference(xc):
+        """averages over xc + residual_i: (closed form), (eager NIFTy Hamiltonian)"""
+        pts = [xc + r for r in resid] if nsmp else [xc]
+        cf = [_ham_np(model, p) for p in pts]
+        n = len(pts)
+        cf = (sum(c[0] for c in cf) / n, sum(c[1] for c in cf) / n, sum(c[2] for c in cf) / n)
+        ev, eg, em = [], [], []
+        for p in pts:
+            pv = _vec(jft, keys, p)
+            v, g = vg_e(pv)
+            ev.append(float(v))
+            eg.append(_flatv(keys, g))
+            cols = []
+            for j in range(D):
+                e = np.zeros(D)
+                e[j] = 1
+                cols.append(_flatv(keys, met_e(pv, _vec(jft, keys, e))))
+            em.append(np.stack(cols, axis=1))
+        eg_ = (sum(ev) / n, sum(eg) / n, sum(em) / n)
+        ok = all(np.all(np.isfinite(np.asarray(a))) for a in cf + eg_)
+        return (cf, eg_) if ok else None
+
+    probe = np.resize(np.asarray(rec["probe"], dtype=FLT), D)
+
+    def compare(xc, where, dense):
+        ref = reference(xc)
+        if ref is None:
+            raise Discard()
+        pv = _vec(jft, keys, xc)
+        for tagn, fn_vg, fn_met in (
+                ("", lambda p: opt.kl_value_and_grad(p, primals_samples=smp),
+                 lambda p, t: opt.kl_metric(p, t, primals_samples=smp)),
+                ("_module", lambda p: okl._kl_vg(lh, p, smp, map=rec["map2"]),
+                 lambda p, t: okl._kl_met(lh, p, t, smp, map=rec["map2"]))):
+            v, g = fn_vg(pv)
+            require(set((g.tree if hasattr(g, "tree") else g).keys()) == set(keys), "gradient_keys" + tagn, where)
+            if dense:
+                cols = []
+                for j in range(D):
+                    e = np.zeros(D)
+                    e[j] = 1
+                    cols.append(_flatv(keys, fn_met(pv, _vec(jft, keys, e))))
+                Mk = np.stack(cols, axis=1)
+            mp = _flatv(keys, fn_met(pv, _vec(jft, keys, probe)))
+            for (rv, rg, rm), sfx in ((ref[1], ""), (ref[0], "_closed_form")):
+                close(np.array([float(v)]), np.array([rv]), "value" + tagn + sfx, tol=TOL, detail=where)
+                close(_flatv(keys, g), rg, "gradient" + tagn + sfx, tol=TOL, detail=where)
+                if dense:
+                    close(Mk, rm, "metric" + tagn + sfx, tol=TOL, detail=where)
+                close(mp, rm @ probe, "metric_probe" + tagn + sfx, tol=TOL, detail=where)
+        return ref
+
+    compare(x1, "at the expansion point", dense=True)
+
+    # ---- moving the expansion point keeps the residuals
+    smp2 = smp.at(pos2)
+    require(_leafbytes(smp2.pos, keys) == _leafbytes(pos2, keys), "moved_pos", "")
+    require(len(smp2) == nsmp, "moved_n_samples", "")
+    if nsmp:
+        a, b = getattr(smp, "_samples", None), getattr(smp2, "_samples", None)
+        if a is not None and b is not None:
+            classes.add("stored_residuals_compared")
+            la, lb = jax.tree_util.tree_leaves(a), jax.tree_util.tree_leaves(b)
+            require(len(la) == len(lb) and all(np.asarray(u).tobytes() == np.asarray(w).tobytes()
+                                               and np.shape(u) == np.shape(w) for u, w in zip(la, lb)),
+                    "stored_residuals_changed", "Samples.at(pos2)")
+        scale = max(1.0, float(np.max(np.abs(x1))), float(np.max(np.abs(x2))), max(float(np.max(np.abs(r))) for r in resid))
+        for i in range(nsmp):
+            close(_flatv(keys, smp2[i]) - x2, resid[i], "residuals_not_kept", tol=1e-14, scale=scale,
+                  detail=f"Samples.at(pos2) sample {i}")
+        stacked = smp2.samples
+        for i in range(nsmp):
+            row = np.concatenate([np.asarray(stacked.tree[k])[i].reshape(-1) for k in keys])
+            close(row - x2, resid[i], "residuals_not_kept", tol=1e-14, scale=scale, detail=f".samples row {i}")
+    # KL evaluated at pos2 with samples still anchored at pos: the residuals are kept, the point moves
+    compare(x2, "at the moved point", dense=False)
+
+    # ---- constants: what the minimiser is handed, for EVERY proper subset of constant keys
+    for r in range(0, len(keys)):
+        for cs in itertools.combinations(keys, r):
+            _check_constants(rec, jft, opt, smp2, model, keys, list(cs), x2, resid, probe, reference, classes,
+                             real=(list(cs) == const))
+    classes.add("const_" + str(len(const)))
+    nontrivial = bool(const) and bool(pe) and set(const) != set(pe) and "residuals_nonzero" in classes
+    if bool(const) and bool(pe) and set(const) != set(pe):
+        classes.add("split_differing_C_P")
+    return dict(nontrivial=nontrivial, classes=sorted(classes))
+
+
+def _check_constants(rec, jft, opt, smp, model, keys, cs, xc, resid, probe, reference, classes, real):
+    import jax.numpy as jnp
+    V = [k for k in keys if k not in cs]
+    vcols = _cols_j(keys, set(V))
+    where = f"kl_minimize constants={cs}"
+    ref = reference(xc)
+    if ref is None:
+        raise Discard()
+    seen = {}
+
+    def recorder(fun, x0=None, fun_and_grad=None, hessp=None, **kw):
+        seen["x0"] = x0
+        seen["vg"] = fun_and_grad(x0)
+        t = jft.Vector(tuple(jnp.asarray(probe[_cols_j(keys, {k})]) for k in V)) if cs else \
+            jft.Vector({k: jnp.asarray(probe[_cols_j(keys, {k})]) for k in keys})
+        seen["hp"] = hessp(x0, t)
+        seen["kw"] = sorted(kw)
+        return jft.optimize.OptimizeResults(x0 + 0.5, True, 0, seen["vg"][0], seen["vg"][1])
+
+    out = opt.kl_minimize(smp, minimize=recorder, minimize_kwargs={}, constants=tuple(cs))
+
+    def flat_liquid(v):
+        if cs:
+            leaves = list(v.tree)
+            require(len(leaves) == len(V), "liquid_structure", f"{where}: {len(leaves)} leaves for keys {V}")
+            return np.concatenate([np.asarray(l, dtype=FLT).reshape(-1) for l in leaves]) if leaves else np.zeros(0)
+        return _flatv(keys, v)
+
+    x0 = flat_liquid(seen["x0"])
+    require(x0.shape == xc[vcols].shape and x0.tobytes() == np.ascontiguousarray(xc[vcols]).tobytes(),
+            "minimiser_start", f"{where}: the start position is not the expansion point without the constants")
+    v, g = seen["vg"]
+    for (rv, rg, rm), sfx in ((ref[1], ""), (ref[0], "_closed_form")):
+        close(np.array([float(v)]), np.array([rv]), "value_constants" + sfx, tol=TOL, detail=where)
+        close(flat_liquid(g), rg[vcols], "gradient_constants" + sfx, tol=TOL, detail=where)
+        close(flat_liquid(seen["hp"]), rm[np.ix_(vcols, vcols)] @ probe[vcols], "metric_constants" + sfx, tol=TOL,
+              detail=where)
+    # result of the (recording) minimiser: constants re-inserted bit-identically, liquid part as returned
+    xt = out.x.tree if hasattr(out.x, "tree") else out.x
+    require(set(xt.keys()) == set(keys), "result_keys", where)
+    for k in cs:
+        require(np.asarray(xt[k]).tobytes() == np.ascontiguousarray(xc[_cols_j(keys, {k})]).tobytes(),
+                "constant_key_changed", f"{where}: key {k} (recording minimiser)")
+    for k in V:
+        require(np.asarray(xt[k]).tobytes() == np.ascontiguousarray(xc[_cols_j(keys, {k})] + 0.5).tobytes(),
+                "liquid_key_lost", f"{where}: key {k}")
+    if cs:
+        classes.add("constants_checked")
+    if not real:
+        return
+    # the real minimiser
+    mk = dict(name=None, xtol=1e-6, maxiter=rec["maxiter"], cg_kwargs=dict(name=None, maxiter=10))
+    out = opt.kl_minimize(smp, minimize_kwargs=mk, constants=tuple(cs))
+    xt = out.x.tree if hasattr(out.x, "tree") else out.x
+    require(set(xt.keys()) == set(keys), "result_keys", where + " (newton_cg)")
+    for k in cs:
+        require(np.asarray(xt[k]).tobytes() == np.ascontiguousarray(xc[_cols_j(keys, {k})]).tobytes(),
+                "constant_key_changed", f"{where}: key {k} after newton_cg")
+    for k in keys:
+        require(np.shape(xt[k]) == (JSIZE[k],), "result_shape", f"{where}: key {k} {np.shape(xt[k])}")
+    if any(np.asarray(xt[k]).tobytes() != np.ascontiguousarray(xc[_cols_j(keys, {k})]).tobytes() for k in V):
+        classes.add("minimiser_moved")
+    # the moved samples keep their residuals and the constants
+    smp3 = smp.at(out.x)
+    x3 = _flatv(keys, out.x)
+    if np.all(np.isfinite(x3)):
+        scale = max([1.0, float(np.max(np.abs(x3)))] + [float(np.max(np.abs(r))) for r in resid])
+        for i in range(len(smp3)):
+            close(_flatv(keys, smp3[i]) - x3, resid[i], "residuals_not_kept", tol=1e-14, scale=scale,
+                  detail=f"{where}: after newton_cg, sample {i}")
+
+
+# ---------------------------------------------------------------- JAX generator
+JNUM = S.dyadic(-2, 2, 8)
+JPHI = ["id", "tanh", "sq"]
+
+
+def _jfwd(draw, keys, phi, allow_mix=True):
+    D = sum(JSIZE[k] for k in keys)
+    ent = st.sampled_from([0.0, 0.0, 0.25, 0.5, -0.5, 1.0, -1.0, 1.5])
+    M = draw(st.lists(st.lists(ent, min_size=D, max_size=D), min_size=JM, max_size=JM))
+    # every key enters every forward model: make sure no key's columns vanish completely
+    o = 0
+    for k in keys:
+        if all(M[i][o + j] == 0 for i in range(JM) for j in range(JSIZE[k])):
+            M[draw(st.integers(0, JM - 1))][o + draw(st.integers(0, JSIZE[k] - 1))] = 0.75
+        o += JSIZE[k]
+    return {"M": M, "c": draw(st.lists(S.dyadic(-1, 1, 4), min_size=JM, max_size=JM)), "phi": phi,
+            "mix": allow_mix and draw(st.integers(0, 2)) == 0}
+
+
+def _jterm(draw, keys):
+    kind = draw(st.sampled_from(["gauss", "gauss", "poisson", "studentt", "vcg"]))
+    pos_w = st.lists(S.dyadic_nz(0.25, 4, 4, signed=False), min_size=JM, max_size=JM)
+    if kind == "gauss":
+        return {"kind": kind, "f": _jfwd(draw, keys, draw(st.sampled_from(JPHI))),
+                "data": draw(st.lists(JNUM, min_size=JM, max_size=JM)), "w": draw(pos_w)}
+    if kind == "studentt":
+        return {"kind": kind, "f": _jfwd(draw, keys, draw(st.sampled_from(JPHI))),
+                "data": draw(st.lists(JNUM, min_size=JM, max_size=JM)), "w": draw(pos_w),
+                "dof": draw(st.sampled_from([1.0, 2.0, 3.5, 8.0]))}
+    if kind == "poisson":
+        return {"kind": kind, "f": _jfwd(draw, keys, "posexp", allow_mix=False),
+                "data": draw(st.lists(st.integers(0, 5), min_size=JM, max_size=JM))}
+    return {"kind": kind, "f": _jfwd(draw, keys, draw(st.sampled_from(JPHI))),
+            "g": _jfwd(draw, keys, "posexp", allow_mix=False),
+            "data": draw(st.lists(JNUM, min_size=JM, max_size=JM))}
+
+
+@st.composite
+def jax_recipes(draw, tier):
+    keys = ["a", "b"] if draw(st.integers(0, 2)) else ["a", "b", "c"]
+    model = {"keys": keys, "terms": [_jterm(draw, keys) for _ in range(draw(st.sampled_from([1, 1, 2])))]}
+    D = sum(JSIZE[k] for k in keys)
+
+    def subset(max_len):
+        states = [draw(st.booleans()) for _ in keys]
+        sel = [k for k, s in zip(keys, states) if s]
+        return sel[:max_len]
+    kind = draw(st.sampled_from(["draw", "draw", "given", "given", "none"]))
+    pe = subset(len(keys) - 1)
+    const = subset(len(keys) - 1)
+    if draw(st.booleans()) and kind != "none":
+        # force the interesting shape: non-empty, different constants and point estimates
+        pe = [draw(st.sampled_from(keys))]
+        const = [draw(st.sampled_from([k for k in keys if k != pe[0]]))]
+        if draw(st.booleans()) and len(keys) == 3:
+            const = sorted(set(const) | {pe[0]})
+    if kind == "draw":
+        samples = ["draw", draw(st.sampled_from(["linear_resample", "linear_resample", "nonlinear_resample"])),
+                   draw(st.integers(1, 3)), draw(st.integers(0, 2**31 - 1))]
+    elif kind == "given":
+        n = draw(st.integers(1, 3))
+        samples = ["given", [{k: draw(st.lists(S.dyadic(-1.5, 1.5, 8), min_size=JSIZE[k], max_size=JSIZE[k]))
+                              for k in keys} for _ in range(n)]]
+    else:
+        samples = ["none"]
+        pe = []
+    return {"model": model,
+            "pos": {k: draw(st.lists(JNUM, min_size=JSIZE[k], max_size=JSIZE[k])) for k in keys},
+            "pos2": {k: draw(st.lists(JNUM, min_size=JSIZE[k], max_size=JSIZE[k])) for k in keys},
+            "samples": samples, "pe": pe, "const": const,
+            "jit": draw(st.integers(0, 3)) == 0, "map": draw(st.sampled_from(["vmap", "vmap", "lmap", "smap"])),
+            "map2": draw(st.sampled_from(["vmap", "lmap", "smap"])),
+            "maxiter": draw(st.integers(1, 2)),
+            "probe": draw(st.lists(S.dyadic(-2, 2, 4), min_size=D, max_size=D))}
 
 
 SUBS = [
@@ -497,4 +998,12 @@ SUBS = [
         rule="one generated split per case with the samples distributed over 2-4 simulated MPI tasks (greenlet "
              "ranks with their own RNG stacks, generated rendezvous schedule); the same relations hold on every "
              "rank; non-trivial = uneven shares or a non-empty split, non-zero residuals"),
+    Sub(name="jax_kl", check=check_jax, strategy=lambda tier: jax_recipes(tier), jax=True,
+        quick=48, thorough=1500, shards=8, budget_quick=90,
+        rule="nifty.re likelihood zoo (Gaussian, StudentT, Poissonian, VariableCovarianceGaussian, sums; 4 forward "
+             "templates over 2-3 keys) with drawn mirrored (linear / nonlinear, with point estimates), hand-made "
+             "unmirrored, or no samples; OptimizeVI.kl_value_and_grad / kl_metric (jit or not, vmap/lmap/smap), "
+             "module-level _kl_vg / _kl_met, Samples.at, kl_minimize with a recording minimiser for EVERY proper "
+             "subset of constant keys and with newton_cg for the generated one; non-trivial = non-empty constants "
+             "and point_estimates that differ, non-zero residuals"),
 ]
